@@ -422,6 +422,8 @@ class PDFStandardSecurityHandler:
         n = 5
         if self.r >= 3:
             n = self.length // 8
+            if n < 1:
+                raise PDFEncryptionError("Invalid key length: %r" % self.length)
             for _ in range(50):
                 result = md5(result[:n]).digest()
         return result[:n]
@@ -755,9 +757,10 @@ class PDFDocument:
                 continue
             # If there's an encryption info, remember it.
             if "Encrypt" in trailer:
+                id_value: Sequence[bytes] = ()
                 if "ID" in trailer:
-                    id_value = list_value(trailer["ID"])
-                else:
+                    id_value = [str_value(x) for x in list_value(trailer["ID"])]
+                if not id_value:
                     # Some documents may not have a /ID, use two empty
                     # byte strings instead. Solves
                     # https://github.com/pdfminer/pdfminer.six/issues/594
